@@ -343,6 +343,7 @@ class InvariantMonitor(Monitor):
 
     def on_commit(self, world, prev, snap, info):
         self.count("commits")
+        self._stale_labels = getattr(world, "stale_labels", ())
         msgs = self.check_state(snap)
         for key, msg in msgs:
             self.violate("R-inv/state", "invariant", f"commit by {info['task']}: {msg}", key)
@@ -416,7 +417,10 @@ class InvariantMonitor(Monitor):
             if row[COL["deferred"]] and state != PENDING:
                 out.append(("deferred-not-pending", snap.key(i)))
             if row[COL["_holding"]] and state != RUNNING:
-                out.append(("holding-not-running", f"{snap.key(i)} {SNAME[state]}"))
+                # Not an invariant: a hold() request that was received in full is applied even
+                # when its step has meanwhile been killed (C15); the step_reset_holding trigger
+                # clears the counter at the next state change.
+                self.count("probe.holding_while_" + SNAME[state])
             if state == SUCCEEDED and not det:
                 for o in sinks.get(i, ()):
                     if o in snap.files and not nodes[o][3]:
@@ -455,7 +459,12 @@ class InvariantMonitor(Monitor):
             was_detached = prev.nodes[i][3]
             if b == PENDING and was_detached:
                 continue  # re-declaration of a detached step resets it
-            out.append(("step-edge", f"{snap.key(i)} {SNAME[a]} -> {SNAME[b]}"))
+            key = "step-edge"
+            if snap.nodes[i][1] in getattr(self, "_stale_labels", ()):
+                # known finding F5: the step was dispatched as a stale child, detached and
+                # re-declared (row reset to PENDING) while its command was still running
+                key = "step-edge:stale-child-redefined-while-running"
+            out.append((key, f"{snap.key(i)} {SNAME[a]} -> {SNAME[b]}"))
         for i, (state, hj) in snap.files.items():
             p = prev.files.get(i)
             if p is None or i not in prev.nodes or i not in snap.nodes:
@@ -613,13 +622,16 @@ class DispatchMonitor(Monitor):
             self.phase_end_pending = False
             draining = bool(world.handler is not None and world.handler.scheduler.draining)
             if not draining:
-                g = Graph(snap)
+                # the state in which job_loop returned: no commit lies between the end of the
+                # loop and this one, so that state is `prev` (a straggling request of a dead
+                # client may change the graph afterwards, which is not the loop's doing)
+                g = Graph(prev)
                 need = g.implied_need(targets, tdirs)
                 left = []
-                for i in snap.steps:
+                for i in prev.steps:
                     ok, why = eligible(g, i, need, threshold, avail)
                     if ok:
-                        left.append(snap.key(i))
+                        left.append(prev.key(i))
                 self.count("phase_end_checked")
                 if left:
                     self.violate(
